@@ -70,10 +70,12 @@ def witness_programs(ctx):
 def copy_cover_programs(ctx):
     """Breadth-first covers (S3ClientGen!CopySit, MpuSit), shortest program into each situation:
     CopyObject: {tagging, metadata} directive x source with/without x replacement empty/non-empty;
-    CompleteMultipartUpload of an upload created with / without content type, metadata, tags, storage class, parts.
+    CompleteMultipartUpload of an upload created with / without content type, metadata, tags, storage class, parts;
+    DeleteObject: key-only / by version id x target object version / delete marker / missing (current or not) x
+    versioning status.
     A smallest covering selection is always executed."""
     ps = []
-    for cfg in ("S3Client.Cover.cfg", "S3Client.CoverMpu.cfg"):
+    for cfg in ("S3Client.Cover.cfg", "S3Client.CoverMpu.cfg", "S3Client.CoverDel.cfg"):
         r = ctx.tlc("S3ClientGen", cfg, workers=1, timeout=600, count_mc=False)
         if r.outcome != "ok":
             raise vlib.Infra("situation cover %s failed: %s\n%s" % (cfg, r.outcome, r.output[-1500:]))
@@ -82,8 +84,9 @@ def copy_cover_programs(ctx):
     keys = set(k for p in ps for k in p["keys"])
     ncopy = sum(1 for k in keys if k.startswith('<<"tags"') or k.startswith('<<"meta"'))
     nmpu = sum(1 for k in keys if k.startswith('<<"mpu-'))
-    if ncopy < 16 or nmpu < 10:
-        raise vlib.Infra("situation cover incomplete: %d of 16 copy and %d of 10 multipart situations" % (ncopy, nmpu))
+    ndel = sum(1 for k in keys if k.startswith('<<"del"'))
+    if ncopy < 16 or nmpu < 10 or ndel < 20:
+        raise vlib.Infra("situation cover incomplete: %d of 16 copy, %d of 10 multipart, %d of 20 delete situations" % (ncopy, nmpu, ndel))
     chosen, covered = [], set()
     while covered != keys:
         best = max(ps, key=lambda p: (len(set(p["keys"]) - covered), -len(p["calls"])))
@@ -171,7 +174,8 @@ def run(ctx):
     ctx.assumptions += [
         "programs are random walks of the model (TLC -simulate) plus TLC's shortest witness program per open deviation "
         "plus breadth-first covers of the CopyObject directive situations (directive x source has tags/metadata x "
-        "replacement empty/non-empty) and of completed multipart uploads created with/without each option",
+        "replacement empty/non-empty), of completed multipart uploads created with/without each option and of the "
+        "DeleteObject situations (key-only / by version id x object version / delete marker / missing x versioning status)",
         "both runs start from fresh, identically configured stacks; the endpoint storage is additionally read directly",
         "a rejected program is reported and dropped; the remaining programs are still validated",
     ]
